@@ -140,6 +140,7 @@ func runC14(c *Check) {
 	c.Doc("C14-R4", "CS+VP: reader/writer codec agreement per key kind.")
 	ruleNoBatchUseAfterCommit(c, p, "C14-R10", storePkg)
 	ruleStoreNotBuffered(c, p, "C14-R11", storePkg)
+	ruleOnDiskStoreOptionsDefault(c, p, "C14-R13")
 	c.MinInstances("C14-R10", 1)
 
 	ctors, ctorByLabel, kindLabel, ctorOf := storeKeyCtors(p, func(l string, ci, first *ctorInfo, fn *ssa.Function) {
